@@ -33,6 +33,7 @@ type rbScn struct {
 	Body    [][2]string `json:"body"`
 	MsgKind string      `json:"msgkind"`
 	NonConf string      `json:"nonconf"` // chain: the path-bound field does not fit the variable's pattern
+	Discard bool        `json:"discard"` // bind: the service discards unknown query parameters, and the request carries some
 }
 
 type rbMsg struct {
@@ -249,6 +250,18 @@ func init() {
 		if err := json.Unmarshal(raw, &scn); err != nil {
 			panic(err)
 		}
+		out := rbRun(scn, seed)
+		if scn.Kind == "bind" && len(scn.Query) >= 1 {
+			// the same request with parameters that name no field, to a service told to discard those
+			scn.Discard = true
+			out = append(out, rbRun(scn, seed)...)
+		}
+		return out
+	})
+}
+
+func rbRun(scn rbScn, seed int64) []any {
+	{
 		if scn.PV == nil {
 			scn.PV = []string{}
 		}
@@ -282,7 +295,7 @@ func init() {
 			w.Header().Set("Content-Type", "application/proto")
 			w.WriteHeader(http.StatusOK)
 		})
-		restSide, err := buildTranscoder(cfgSpec{Protos: []string{"connect"}, Codecs: []string{"proto"}, Comps: []string{}}, backend, nil)
+		restSide, err := buildTranscoder(cfgSpec{Protos: []string{"connect"}, Codecs: []string{"proto"}, Comps: []string{}, Discard: scn.Discard}, backend, nil)
 		if err != nil {
 			panic(err)
 		}
@@ -292,6 +305,12 @@ func init() {
 			q := url.Values{}
 			for _, kv := range scn.Query {
 				q.Add(kv[0], textOfTok(kv[1]))
+			}
+			if scn.Discard {
+				// parameters that name no field of the message: discarded, and nothing else with them
+				for _, k := range []string{"api_key", "zz-unknown", "Aa.unknown", "_", "trace.id"} {
+					q.Add(k, "x")
+				}
 			}
 			full := path
 			if len(q) > 0 {
@@ -417,5 +436,5 @@ func init() {
 			}
 		}
 		return []any{obs}
-	})
+	}
 }
